@@ -80,7 +80,7 @@ class Dipole(BaseSource):
         self.moment = moment
 
         # init inheritance
-        super().__init__(position, orientation, style, **kwargs)
+        super().__init__(position, orientation, style=style, **kwargs)
 
     # property getters and setters
     @property
